@@ -317,6 +317,9 @@ def evaluate(chk, model, cfg, res, stats, report):
     stats['null_ptr_msgs'] += sum(1 for v in tw.values() if v[2] == '-')
     stats['nul_texts'] += sum(1 for v in tw.values() if '00' in [v[1][k:k + 2] for k in range(1, len(v[1]), 2)])
     stats['preformatted_msgs'] += sum(1 for v in tw.values() if v[9] != '-')
+    stats['empty_texts'] += sum(1 for v in tw.values() if v[1] == 'h')
+    stats['empty_texts_delivered'] += sum(1 for a in asy if a[4][1] == 'h')
+    stats['empty_first_or_last'] += sum(1 for (p, i), v in tw.items() if v[1] == 'h' and (i == 0 or (p < len(quotas) and i == quotas[p] - 1)))
     # --- model copy == implementation (bare mode: the twin dump is the original message)
     if cmode == 'bare' and asy:
         keys = [(p, i) for _, p, i, _, _ in asy if (p, i) in tw]
@@ -341,8 +344,17 @@ def evaluate(chk, model, cfg, res, stats, report):
     if bad:
         b = bad[0]
         stats['kinds'][b[0]] = stats['kinds'].get(b[0], 0) + 1
-        report('%s: %s (%s mode, %d producers x %d messages)' % (b[0], b[1], mode, n, per),
-               dict(cfg, kind=b[0], detail=b[1], acceptor={'accept': acc, 'prefix': pre, 'events': tot},
+        extra = {}
+        if b[0] == 'lost':      # what the synchronous sink saw of the messages that never arrived
+            dl = set((p, i) for _, p, i, _, _ in asy)
+            lost = sorted(k for k in tw if k not in dl)
+            extra = {'lost_messages_as_the_synchronous_sink_saw_them': [dict(producer=k[0], index=k[1], first_of_producer=(k[1] == 0),
+                                                                              last_of_producer=(k[0] < len(quotas) and k[1] == quotas[k[0]] - 1),
+                                                                              **{FIELDS[x]: tw[k][x] for x in (0, 1, 2, 3, 9)}) for k in lost[:3]],
+                     'lost_with_empty_text': sum(1 for k in lost if tw[k][1] == 'h'), 'lost_total': len(lost)}
+        report('%s: %s (%s mode, %d producers x %d messages)%s' % (b[0], b[1], mode, n, per,
+                                                                     '; %d of the %d lost messages have an empty text' % (extra['lost_with_empty_text'], extra['lost_total']) if extra.get('lost_with_empty_text') else ''),
+               dict(cfg, kind=b[0], detail=b[1], **extra, acceptor={'accept': acc, 'prefix': pre, 'events': tot},
                     trace_around_first_rejected_event=ev[max(0, pre - 25):pre + 3], header=hdr), b[0])
     elif acc != 1:
         stats['kinds']['rejected'] = stats['kinds'].get('rejected', 0) + 1
@@ -382,6 +394,7 @@ def run():
              'max_backlog': 0, 'runs_with_backlog': 0, 'null_ptr_msgs': 0, 'preformatted_msgs': 0,
              'stalled_sink_runs': 0, 'max_call_ms_while_sink_stalled': 0, 'fatal_msgs': 0, 'relog_runs': 0, 'drain_runs': 0,
              'max_call_ms_during_drain': 0, 'nul_texts': 0, 'max_backlog_ms_at_reset': 0,
+             'empty_texts': 0, 'empty_texts_delivered': 0, 'empty_first_or_last': 0,
              'time_format_runs': 0, 'rendered_times_checked': 0, 'model_time_source': None}
     # what the translated TimeToken reads for %{time process} / %{time boot} (the model's render_rel is evaluated with it)
     _, ts_out, _ = vlib.run_lines(model, ['-'], ['tsrc'])
@@ -418,7 +431,7 @@ def run():
                     'distinct_nontrivial': sum(1 for c, r in results if r[1] is not None and len(r[4]) >= 2 * c['n']),
                     'rule': 'runs = repetitions x {bare OwnThreadHandler<SimplePipeline>, installed Logger via QMessageLogger} in own-thread mode x '
                             'producers in {1,2,4,8,16}, ~1200 messages per run, heap source-location buffers scrubbed+freed after the call, '
-                            'every 5th message null file/function, every 7th null category, all five message types incl. QtFatalMsg (fatal via '
+                            'every 5th message null file/function, every 7th null category, empty texts (null QString / "": first message of every other producer, last message of the others, every 13th in between), all five message types incl. QtFatalMsg (fatal via '
                             'process()/Logger::processMessage directly), children run under non-UTC POSIX zones (TZ=DEMO-05:30 / XYZ+03), '
                             'the time is compared as msecs+timeSpec+offsetFromUtc+ISO text, send() and flush() entries must be on the logger thread, seeded perturbation at the schedule points, '
                             'half of the runs with PatternFormatter("%{time process}~%{time boot}~%{time hh:mm:ss.zzz}") in the asynchronous pipeline: the rendered '
@@ -435,6 +448,8 @@ def run():
                     'producers_histogram': {str(n): sum(1 for c, _ in results if c['n'] == n) for n in (1, 2, 4, 8, 16)},
                     'sinkdelay_histogram': {str(d): sum(1 for c, _ in results if c['sinkdelay'] == d) for d in range(3)},
                     'fatal_level_messages': stats['fatal_msgs'], 'texts_with_embedded_NUL': stats['nul_texts'],
+                    'messages_with_empty_text': stats['empty_texts'], 'empty_text_messages_delivered': stats['empty_texts_delivered'],
+                    'empty_text_as_first_or_last_message_of_a_producer': stats['empty_first_or_last'],
                     'relogging_sink_runs': stats['relog_runs'], 'drain_runs': stats['drain_runs'], 'max_backlog_ms_queued_at_reset': stats['max_backlog_ms_at_reset'], 'max_call_ms_during_drain': stats['max_call_ms_during_drain'],
                     'tz_histogram': {z or 'inherited': sum(1 for c, _ in results if c.get('tz', '') == z) for z in ('DEMO-05:30', 'XYZ+03', '')},
                     'time_format_runs': stats['time_format_runs'], 'rendered_time_texts_compared': stats['rendered_times_checked'],
